@@ -180,6 +180,25 @@ def txid_locked() -> bool:
     return ok_inc and ok_ret and '_transaction_id_lock = threading.Lock()' in init_src
 
 
+def restart_makes_new_manager() -> bool:
+    """SdcConsumer.start_all (called again by restart()) assigns a new OperationsManager unconditionally"""
+    from sdc11073.consumer import consumerimpl
+    tree = ast.parse(textwrap.dedent(inspect.getsource(consumerimpl.SdcConsumer.start_all)))
+    fn = tree.body[0]
+
+    def assigns(node):
+        return (isinstance(node, ast.Assign) and len(node.targets) == 1 and isinstance(node.targets[0], ast.Attribute)
+                and node.targets[0].attr == 'operations_manager' and isinstance(node.value, ast.Call))
+    top = [n for n in fn.body if assigns(n)]
+    everywhere = [n for n in ast.walk(fn) if assigns(n)]
+    if len(everywhere) != 1:
+        raise SystemExit(f'fail-closed: start_all assigns operations_manager {len(everywhere)} times')
+    restart_src = inspect.getsource(consumerimpl.SdcConsumer.restart)
+    if 'self.start_all(' not in restart_src:
+        raise SystemExit('fail-closed: restart() does not call start_all')
+    return len(top) == 1
+
+
 def lst(xs):
     return '[' + '; '.join(xs) + ']'
 
@@ -200,6 +219,7 @@ Definition consumer_keeps_early_parts : bool := {'true' if keeps_early else 'fal
 Definition txid_under_lock : bool := {'true' if txid_locked() else 'false'}.
 Definition consumer_state_under_lock : bool := {'true' if state_under_lock else 'false'}.
 Definition sco_full_queue_loses_wait : bool := {'true' if full_queue_loses_wait else 'false'}.
+Definition consumer_restart_fresh_manager : bool := {'true' if restart_makes_new_manager() else 'false'}.
 '''
 print(json.dumps({'rel': 'Invocation/Gen_Consts.v', 'text': text, 'queue_cap': queue_cap, 'recent_cap': recent_cap,
                   'direct_table': table, 'completing': completing, 'nonfinal': nonfinal, 'keeps_early': keeps_early,
